@@ -181,11 +181,16 @@ def gen_twin_group(r, gid):
     out.append(("forced", "g%d_forced src=%s %s" % (gid, hx(rule("(%s) or filesize < 0" % base_cond)), b)))
     out.append(("constexpr", "g%d_constexpr src=%s %s" % (gid, hx(rule(tmpl.format(*[const_expr(r, v) for v in vals]))), b)))
     names = ["e%d" % i for i in range(k)]
+    decoy = ""
+    if r.random() < 0.5:
+        # identifiers that are proper prefixes of identifiers declared before them (longest first), behind a decoy that extends them all
+        names = ["e" + "x" * (k - 1 - i) for i in range(k)]
+        decoy = "cext=i:%s:%d " % ("e" + "x" * k, r.choice([0, 1, 77]))
     ext_cond = rule(tmpl.format(*names))
-    cext = " ".join("cext=i:%s:%d" % (n, v) for n, v in zip(names, vals))
+    cext = decoy + " ".join("cext=i:%s:%d" % (n, v) for n, v in zip(names, vals))
     out.append(("ext", "g%d_ext %s src=%s %s" % (gid, cext, hx(ext_cond), b)))
     wrong = [v + r.choice([1, 2, -1, 5]) for v in vals]
-    cextw = " ".join("cext=i:%s:%d" % (n, v) for n, v in zip(names, wrong))
+    cextw = decoy + " ".join("cext=i:%s:%d" % (n, v) for n, v in zip(names, wrong))
     out.append(("ext_rdef", "g%d_ext_rdef %s src=%s %s %s" % (gid, cextw, hx(ext_cond), " ".join("rext=i:%s:%d" % (n, v) for n, v in zip(names, vals)), b)))
     out.append(("ext_sdef", "g%d_ext_sdef %s src=%s %s %s" % (gid, cextw, hx(ext_cond), " ".join("sext=i:%s:%d" % (n, v) for n, v in zip(names, vals)), b)))
     # an external combined with a constant by an operator that leaves its value unchanged: the compile-time value of such an
